@@ -23,7 +23,7 @@ type PropDef struct {
 	Skip []string
 }
 
-var graphSetPosts = []string{"C09:add:", "C09:union:", "C10:", "C08:add:", "C08:union:", "C08:intersect:", "C08:remove:", "C09:copy:", "C08:indexNodes:", "C08:indexRoots:", "C08:idx", "C15:", "C08:inv", "C09:inv", "C10:inv", "C08:cleanEdges:closedFrom", "C08:cleanEdges:closedTo", "C08:cleanEdges:oneEdgePerSourceAndType", "C08:cleanEdges:noRepeatedTargets"}
+var graphSetPosts = []string{"C09:add:", "C09:union:", "C10:", "C08:add:", "C08:union:", "C08:intersect:", "C08:remove:", "C12:copy:", "C08:indexNodes:", "C08:indexRoots:", "C08:idx", "C15:", "C12:inv", "C08:inv", "C09:inv", "C10:inv", "C08:cleanEdges:closedFrom", "C08:cleanEdges:closedTo", "C08:cleanEdges:oneEdgePerSourceAndType", "C08:cleanEdges:noRepeatedTargets"}
 
 var propDefs = map[string]PropDef{
 	"C01": {Classes: []string{"TABLE", "LEMMA", "POST", "INV", "PRE"}, Level: "proof"},
@@ -37,7 +37,7 @@ var propDefs = map[string]PropDef{
 	"C09": {Classes: []string{"POST", "INV", "PRE", "LEMMA"}, Level: "proof"},
 	"C10": {Classes: []string{"POST", "INV", "PRE", "LEMMA"}, Level: "proof"},
 	"C11": {Classes: []string{"FRAME"}, Level: "proof", Skip: graphSetPosts},
-	"C12": {Classes: []string{"OWN", "POST", "INV"}, Level: "proof", Skip: graphSetPosts},
+	"C12": {Classes: []string{"OWN", "POST", "INV"}, Level: "proof", Skip: without(graphSetPosts, "C12:inv")},
 	"C13": {Classes: []string{"POST", "LEMMA", "PRE", "INV"}, Level: "proof"},
 	"C14": {Classes: []string{"POST", "INV", "PRE", "LEMMA"}, Level: "proof", Skip: graphSetPosts},
 	"C15": {Classes: []string{"SAFE", "POST", "INV", "PRE", "LEMMA"}, Level: "proof"},
@@ -446,4 +446,20 @@ func skipLabel(label string) bool {
 		}
 	}
 	return false
+}
+
+func without(list []string, drop ...string) []string {
+	var out []string
+	for _, x := range list {
+		keep := true
+		for _, d := range drop {
+			if x == d {
+				keep = false
+			}
+		}
+		if keep {
+			out = append(out, x)
+		}
+	}
+	return out
 }
